@@ -2055,42 +2055,43 @@ func zAdd(n *Nodis, conn *redis.Conn, cmd redis.Command) {
 	}
 	itemStart++
 	key := cmd.Args[0]
-	var count int64 = 0
 	execCommand(conn, func() {
-		for i := itemStart; i < len(cmd.Args); i += 2 {
-			if i+2 > len(cmd.Args) {
-				break
-			}
-			score, err := strconv.ParseFloat(cmd.Args[i], 64)
+		nx, xx, gt, lt := cmd.Options.NX > 0, cmd.Options.XX > 0, cmd.Options.GT > 0, cmd.Options.LT > 0
+		if nx && xx {
+			conn.WriteError("ERR XX and NX options at the same time are not compatible")
+			return
+		}
+		if (gt && lt) || (nx && (gt || lt)) {
+			conn.WriteError("ERR GT, LT, and/or NX options at the same time are not compatible")
+			return
+		}
+		pairs := cmd.Args[itemStart:]
+		if len(pairs) == 0 || len(pairs)%2 != 0 {
+			conn.WriteError("ERR syntax error")
+			return
+		}
+		if cmd.Options.INCR > 0 && len(pairs) != 2 {
+			conn.WriteError("ERR INCR option supports a single increment-element pair")
+			return
+		}
+		// all the scores are validated before anything is written
+		members := make([]string, 0, len(pairs)/2)
+		scores := make([]float64, 0, len(pairs)/2)
+		for i := 0; i < len(pairs); i += 2 {
+			score, err := strconv.ParseFloat(pairs[i], 64)
 			if err != nil || math.IsNaN(score) {
 				conn.WriteError("ERR score value is not a valid float")
 				return
 			}
-			member := cmd.Args[i+1]
-			if cmd.Options.INCR > 0 {
-				score = n.ZIncrBy(key, member, score)
-				conn.WriteBulk(strconv.FormatFloat(score, 'f', -1, 64))
-				return
-			}
-			if cmd.Options.XX > 0 {
-				conn.WriteInt64(n.ZAddXX(key, member, score))
-				return
-			}
-			if cmd.Options.NX > 0 {
-				conn.WriteInt64(n.ZAddNX(key, member, score))
-				return
-			}
-			if cmd.Options.LT > 0 {
-				conn.WriteInt64(n.ZAddLT(key, member, score))
-				return
-			}
-			if cmd.Options.GT > 0 {
-				conn.WriteInt64(n.ZAddGT(key, member, score))
-				return
-			}
-			count += n.ZAdd(key, member, score)
+			scores = append(scores, score)
+			members = append(members, pairs[i+1])
 		}
-		conn.WriteInt64(count)
+		if cmd.Options.INCR > 0 {
+			score := n.ZIncrBy(key, members[0], scores[0])
+			conn.WriteBulk(strconv.FormatFloat(score, 'f', -1, 64))
+			return
+		}
+		conn.WriteInt64(n.zAddPairs(key, nx, xx, gt, lt, cmd.Options.CH > 0, members, scores))
 	})
 }
 
